@@ -8,7 +8,7 @@ ID = 'C04'
 PROPS_FILE = 'theories/Props/C04.v'
 PROPS_MODULE = 'Props.C04'
 COQ_TARGETS = ['theories/Extract/ExtractSyntax.vo']
-REQUIRED_THEOREMS = ['C04_serialize_total', 'C04_indent_balanced', 'C04_output_extends', 'C04_junk_verbatim', 'C04_junk_skipped', 'C04_comment_lines', 'C04_roundtrip_simple_partial', 'C04_fixpoint_simple_partial', 'C04_simple_are_parser_outputs', 'C04_roundtrip_multiline_partial', 'C04_fixpoint_multiline_partial', 'C04_multiline_output', 'C04_multiline_contains_parser_outputs', 'C04_simple_in_multiline', 'C04_roundtrip_select_partial', 'C04_fixpoint_select_partial', 'C04_select_output', 'C04_select_contains_parser_outputs', 'C04_multiline_in_select', 'C04_roundtrip_wellformed_sources_partial', 'C04_roundtrip_layout_sources_partial', 'C04_parser_output_shape', 'C04_roundtrip_parser_outputs_partial', 'C04_roundtrip_covered_partial', 'C04_parser_output_utf8', 'C04_roundtrip_str_inputs_partial', 'C04_roundtrip_nested_partial', 'C04_fixpoint_nested_partial', 'C04_nested_output', 'C04_nested_contains_parser_outputs', 'C04_write_char_into_indent_line_start', 'C04_write_char_into_indent_elsewhere', 'C04_write_char_into_indent_general', 'C04_final_indent_zero', 'C04_parser_output_identifiers', 'C04_parser_output_content', 'C04_roundtrip_errorfree_partial', 'C04_multiline_in_nested', 'C04_simple_output', 'C04_roundtrip_statement_refuted_by_D7', 'C04_fixpoint_statement_refuted_by_D7', 'C04_parser_output_lines', 'C04_parser_output_nocr', 'C04_roundtrip_errorfree_nocr_partial']
+REQUIRED_THEOREMS = ['C04_serialize_total', 'C04_indent_balanced', 'C04_output_extends', 'C04_junk_verbatim', 'C04_junk_skipped', 'C04_comment_lines', 'C04_roundtrip_simple_partial', 'C04_fixpoint_simple_partial', 'C04_simple_are_parser_outputs', 'C04_roundtrip_multiline_partial', 'C04_fixpoint_multiline_partial', 'C04_multiline_output', 'C04_multiline_contains_parser_outputs', 'C04_simple_in_multiline', 'C04_roundtrip_select_partial', 'C04_fixpoint_select_partial', 'C04_select_output', 'C04_select_contains_parser_outputs', 'C04_multiline_in_select', 'C04_roundtrip_wellformed_sources_partial', 'C04_roundtrip_layout_sources_partial', 'C04_parser_output_shape', 'C04_roundtrip_parser_outputs_partial', 'C04_roundtrip_covered_partial', 'C04_parser_output_utf8', 'C04_roundtrip_str_inputs_partial', 'C04_roundtrip_nested_partial', 'C04_fixpoint_nested_partial', 'C04_nested_output', 'C04_nested_contains_parser_outputs', 'C04_write_char_into_indent_line_start', 'C04_write_char_into_indent_elsewhere', 'C04_write_char_into_indent_general', 'C04_final_indent_zero', 'C04_parser_output_identifiers', 'C04_parser_output_content', 'C04_roundtrip_errorfree_partial', 'C04_multiline_in_nested', 'C04_simple_output', 'C04_roundtrip_statement_refuted_by_D7', 'C04_fixpoint_statement_refuted_by_D7', 'C04_parser_output_lines', 'C04_parser_output_nocr', 'C04_roundtrip_errorfree_nocr_partial', 'C04_parser_output_lines_crlf', 'C04_parser_output_nocr_crlf', 'C04_nocr_is_no_lone_cr', 'C04_roundtrip_errorfree_crlf_partial']
 MODEL = 'syn'
 HARNESS_BINS = ['syn_run']
 ANCHORS = ['fluent-syntax/src/serializer.rs', 'fluent-syntax/src/parser/pattern.rs', 'fluent-syntax/src/parser/comment.rs']
@@ -230,18 +230,18 @@ def nontrivial(case, out):
 
 
 PARTIAL = ('serializer totality, balanced indentation, buffer growth, Junk and comment emission are proved for ALL trees. Round trip AND fixed '
-           'point (both options) are PROVED for the parser output of EVERY error-free source that is valid UTF-8 and has no CR byte, with one '
+           'point (both options) are PROVED for the parser output of EVERY error-free source that is valid UTF-8 and in which every CR is followed by LF (LF and CR LF line ends mixed at will), with one '
            'side condition on the tree, "no comment with zero lines", which is exactly the known finding D7 '
-           '(C04_roundtrip_errorfree_nocr_partial; it rests on theorems about ALL parser outputs: C04_parser_output_shape, _identifiers '
+           '(C04_roundtrip_errorfree_crlf_partial; it rests on theorems about ALL parser outputs: C04_parser_output_shape, _identifiers '
            '(lexical validity), _utf8, _content, _lines (the dedentation rules), _nocr), and more generally for every parser output whose '
-           'joined tree satisfies the executable premise c04_covered (C04_roundtrip_covered_partial; CRLF sources fall under this one; the '
+           'joined tree satisfies the executable premise c04_covered (C04_roundtrip_covered_partial; the '
            'evidence counts how many generated inputs do). Outside the proof, decided by the round-trip oracle on the implementation: '
            'trees with Junk, D7, lone CRs in text (D30). The unrestricted statements are refuted on the current tree by D7.')
 
 MANIFEST = {
     'text': 'Rocq theorems about the Gallina transliteration of the serializer (SerializerModel.v): never panics and restores the indent '
             'level for ALL trees; Junk verbatim / skipped; comment line format; the exact canonical text; round trip and fixed point '
-            'PROVED for the parser output of every error-free CR-free UTF-8 source without a zero-line comment (= D7) and for every parser output '
+            'PROVED for the parser output of every error-free UTF-8 source with LF or CR LF line ends without a zero-line comment (= D7) and for every parser output '
             'whose joined tree is well-formed (shape, lexical validity, dedentation rules of ALL parser outputs proved), composed with the '
             'parser model; every other parser output (sources with Junk, D7, D30, lone CRs) is checked by running parse/serialize/parse/serialize on the extracted model and on the real crate and '
             'comparing both trees and both texts.',
